@@ -2,7 +2,7 @@
 From SV Require Import Model.Base Model.LeapArray Model.World Model.Conc Spec.C14Spec Run.Common.
 Open Scope N_scope.
 
-Record ccase := mkCCase { cc_base : N; cc_mode : N; cc_progs : list (list top); cc_steps : list (nat * N) }.
+Record ccase := mkCCase { cc_base : N; cc_mode : N; cc_progs : list (list top); cc_steps : list (nat * N); cc_free : bool }.
 
 Definition zN (n : N) : Z := Z.of_N n.
 
@@ -60,7 +60,15 @@ Definition agree (co : ccase * list Z) : bool :=
   | None => false
   | Some (o, tr) =>
       let '(mo, mtr) := model_obs false (cc_base c) (cc_mode c) (cc_progs c) (cc_steps c) in
-      zlist_eqb (enc_obs mo (map (fun x => (fst x, pt_code (snd x))) mtr)) (enc_obs o tr)
+      if cc_free c then
+        (* the threads ran freely in parallel: no point trace, and the order in which entries complete is the
+           machine's; what every schedule must agree on (by C14_accounting_every_schedule, with the clock
+           frozen in one bucket) are the final readings *)
+        zlist_eqb (enc_obs (mkO (o_done mo) [] [] (o_tok mo) (o_conc mo) (o_pass mo) (o_complete mo) (o_rt mo)
+                                (o_iconc mo) (o_ipass mo) (o_icomplete mo) (o_irt mo)) [])
+                  (enc_obs (mkO (o_done o) [] [] (o_tok o) (o_conc o) (o_pass o) (o_complete o) (o_rt o)
+                                (o_iconc o) (o_ipass o) (o_icomplete o) (o_irt o)) [])
+      else zlist_eqb (enc_obs mo (map (fun x => (fst x, pt_code (snd x))) mtr)) (enc_obs o tr)
   end.
 
 (** C14 on the implementation's observations *)
